@@ -14,6 +14,7 @@ inside pandas is glue the model does not contain: it is reached only through gat
 All statements are for data sets of any size over any linearly ordered field.
 -/
 import ZepidVerif.Lemmas.Relabel
+import ZepidVerif.Lemmas.Msm
 import ZepidVerif.Props.C07
 import Mathlib.Algebra.Order.Field.Rat
 import Mathlib.Tactic.NormNum
@@ -525,6 +526,108 @@ theorem tmle_ate_affine (c d : F) (q1 q0 mini maxi : F) :
       = c * (Gen.tmle_unit_unbound q1 mini maxi - Gen.tmle_unit_unbound q0 mini maxi) := by
   constructor <;> (simp only [Gen.tmle_unit_unbound]; ring)
 
+/-! ### The robust (GEE sandwich) standard errors of `IPTW.fit`
+
+`ZV.Ci.armMean / armVar / msmRD / msmRR / msmOR` (Model/Ci.lean) is the closed form of what the weighted GEE of the
+saturated marginal structural model `Y ~ A` reports (independence working correlation, robust covariance with every
+row its own cluster; DESIGN §3.2, measured against statsmodels by C06's gate K): the weighted arm means, their HC0
+variances, and the delta-method variance of RD (identity link), log RR (log link), log OR (logit link). -/
+
+/-- **msm_perm_invariant.**  Estimates and robust variances of the saturated MSM are functions of the row multiset
+    (the weight `_ipfw_` travels with its row). -/
+theorem msm_perm_invariant {l₁ l₂ : List (Ci.MRow F)} (h : l₁.Perm l₂) :
+    (∀ a, Ci.armMean l₁ a = Ci.armMean l₂ a ∧ Ci.armVar l₁ a = Ci.armVar l₂ a) ∧
+    Ci.msmRD l₁ = Ci.msmRD l₂ ∧ Ci.msmRR l₁ = Ci.msmRR l₂ ∧ Ci.msmOR l₁ = Ci.msmOR l₂ := by
+  have hm := Ci.armMean_perm h
+  have hv := Ci.armVar_perm h
+  exact ⟨fun a => ⟨hm a, hv a⟩, by simp only [Ci.msmRD, hm, hv], by simp only [Ci.msmRR, hm, hv],
+    by simp only [Ci.msmOR, hm, hv]⟩
+
+/-- **msm_flip.**  Recode `A ↦ 1 − A` (row weights unchanged: `iptw_weight_flip`): the two arm means and their
+    sandwich variances swap (so the GEE's intercept row is the other arm's); the risk difference is negated, the
+    risk ratio and the odds ratio are inverted, and the robust variance of RD, of log RR and of log OR — the square
+    of the reported `SE(RD)`, `SE(log(RR))`, `SE(log(OR))` — is unchanged.  No side condition. -/
+theorem msm_flip (rows : List (Ci.MRow F)) :
+    let rows' := rows.map Ci.flipM
+    (∀ a, Ci.armMean rows' (!a) = Ci.armMean rows a ∧ Ci.armVar rows' (!a) = Ci.armVar rows a) ∧
+    Ci.msmRD rows' = (-(Ci.msmRD rows).1, (Ci.msmRD rows).2) ∧
+    Ci.msmRR rows' = (((Ci.msmRR rows).1)⁻¹, (Ci.msmRR rows).2) ∧
+    Ci.msmOR rows' = (((Ci.msmOR rows).1)⁻¹, (Ci.msmOR rows).2) := by
+  intro rows'
+  have m1 : Ci.armMean rows' true = Ci.armMean rows false := Ci.armMean_flip rows false
+  have m0 : Ci.armMean rows' false = Ci.armMean rows true := Ci.armMean_flip rows true
+  have v1 : Ci.armVar rows' true = Ci.armVar rows false := Ci.armVar_flip rows false
+  have v0 : Ci.armVar rows' false = Ci.armVar rows true := Ci.armVar_flip rows true
+  refine ⟨fun a => ⟨Ci.armMean_flip rows a, Ci.armVar_flip rows a⟩, ?_, ?_, ?_⟩
+  · simp only [Ci.msmRD, m1, m0, v1, v0, Prod.mk.injEq]
+    exact ⟨by ring, add_comm _ _⟩
+  · simp only [Ci.msmRR, m1, m0, v1, v0, Prod.mk.injEq]
+    exact ⟨(inv_div _ _).symm, add_comm _ _⟩
+  · simp only [Ci.msmOR, m1, m0, v1, v0, Prod.mk.injEq]
+    exact ⟨(inv_div _ _).symm, add_comm _ _⟩
+
+/-- **msm_affine.**  Change of units `Y ↦ cY + d` of a continuous outcome (Gaussian family, identity link; weights
+    unchanged; both arms have non-zero total weight — what the fit itself needs): each arm mean becomes `c·m + d`,
+    each sandwich variance is multiplied by `c²`; the mean difference is multiplied by `c`, its robust variance by
+    `c²` (the reported `SE(ATE)` by `|c|`) and `d` drops out. -/
+theorem msm_affine (c d : F) (rows : List (Ci.MRow F)) (h1 : Ci.armW rows true ≠ 0) (h0 : Ci.armW rows false ≠ 0) :
+    let rows' := rows.map (Ci.affM c d)
+    (∀ a, Ci.armMean rows' a = c * Ci.armMean rows a + d ∧ Ci.armVar rows' a = c * c * Ci.armVar rows a) ∧
+    Ci.msmRD rows' = (c * (Ci.msmRD rows).1, c * c * (Ci.msmRD rows).2) := by
+  intro rows'
+  have hw : ∀ a, Ci.armW rows a ≠ 0 := fun a => by cases a <;> assumption
+  have hm := fun a => Ci.armMean_aff c d rows a (hw a)
+  have hv := fun a => Ci.armVar_aff c d rows a (hw a)
+  refine ⟨fun a => ⟨hm a, hv a⟩, ?_⟩
+  simp only [Ci.msmRD, rows', hm, hv, Prod.mk.injEq]
+  exact ⟨by ring, by ring⟩
+
+/-- **iptw_msm_relabel.**  The same three statements for `IPTW.fit` from the fitted probabilities on: the GEE's rows
+    are the rows with an observed outcome weighted by `_ipfw_` = generated `iptw_calculator` formula × missingness
+    weight × frequency weight (`Ci.msmRows l (iptwOmega …)`); its arm means are the Hájek means the other C08 / C01
+    theorems are about.  (i) row permutation; (ii) `A ↦ 1 − A` with fitted probabilities `n ↦ 1 − n`, `p ↦ 1 − p`,
+    missingness weights unchanged and the target renamed; (iii) `Y ↦ cY + d` with all fitted probabilities
+    unchanged. -/
+theorem iptw_msm_relabel (l : List (Row F)) (stab : Bool) (t : Tgt) (n p mw : Row F → F) :
+    let ω := iptwOmega stab t n p mw
+    (∀ a, Ci.armMean (Ci.msmRows l ω) a = hajek l ω a) ∧
+    (∀ l₂, l.Perm l₂ →
+      Ci.msmRD (Ci.msmRows l₂ ω) = Ci.msmRD (Ci.msmRows l ω) ∧ Ci.msmRR (Ci.msmRows l₂ ω) = Ci.msmRR (Ci.msmRows l ω) ∧
+      Ci.msmOR (Ci.msmRows l₂ ω) = Ci.msmOR (Ci.msmRows l ω)) ∧
+    (∀ n' p' mw' : Row F → F, (∀ r, n' (flipRow r) = 1 - n r) → (∀ r, p' (flipRow r) = 1 - p r) →
+      (∀ r, mw' (flipRow r) = mw r) →
+      let rows' := Ci.msmRows (l.map flipRow) (iptwOmega stab t.flip n' p' mw')
+      Ci.msmRD rows' = (-(Ci.msmRD (Ci.msmRows l ω)).1, (Ci.msmRD (Ci.msmRows l ω)).2) ∧
+      Ci.msmRR rows' = (((Ci.msmRR (Ci.msmRows l ω)).1)⁻¹, (Ci.msmRR (Ci.msmRows l ω)).2) ∧
+      Ci.msmOR rows' = (((Ci.msmOR (Ci.msmRows l ω)).1)⁻¹, (Ci.msmOR (Ci.msmRows l ω)).2)) ∧
+    (∀ (c d : F) (n' p' mw' : Row F → F), (∀ r, n' (affRow c d r) = n r) → (∀ r, p' (affRow c d r) = p r) →
+      (∀ r, mw' (affRow c d r) = mw r) →
+      Ci.armW (Ci.msmRows l ω) true ≠ 0 → Ci.armW (Ci.msmRows l ω) false ≠ 0 →
+      Ci.msmRD (Ci.msmRows (l.map (affRow c d)) (iptwOmega stab t n' p' mw'))
+        = (c * (Ci.msmRD (Ci.msmRows l ω)).1, c * c * (Ci.msmRD (Ci.msmRows l ω)).2)) := by
+  intro ω
+  refine ⟨fun a => Ci.armMean_msmRows l ω a, ?_, ?_, ?_⟩
+  · intro l₂ h
+    have := msm_perm_invariant (Ci.msmRows_perm h ω)
+    exact ⟨this.2.1.symm, this.2.2.1.symm, this.2.2.2.symm⟩
+  · intro n' p' mw' hn hp hmw rows'
+    have hω : ∀ r, iptwOmega stab t.flip n' p' mw' (flipRow r) = ω r := by
+      intro r
+      simp only [ω, iptwOmega, hn, hp, hmw]
+      show Gen.iptw_weight stab t.flip.str (!r.a) _ _ * _ = _
+      rw [iptw_weight_flip]
+    have e : rows' = (Ci.msmRows l ω).map Ci.flipM := Ci.msmRows_flip l ω _ hω
+    rw [e]
+    exact (msm_flip (Ci.msmRows l ω)).2
+  · intro c d n' p' mw' hn hp hmw h1 h0
+    have hω : ∀ r, iptwOmega stab t n' p' mw' (affRow c d r) = ω r := by
+      intro r
+      simp only [ω, iptwOmega, hn, hp, hmw]
+      rfl
+    rw [Ci.msmRows_aff c d l ω _ hω]
+    exact (msm_affine c d (Ci.msmRows l ω) h1 h0).2
+
+
 /-! ### Closed-form g-estimation of a structural nested mean model -/
 
 /-- **snm_affine.**  `ψ` solves the estimating equations `Σ w(A−π)V_k (Y − A Σ_j ψ_j V_j) = 0` for the outcome
@@ -725,6 +828,22 @@ example (q : Nat → Bool → ℚ) (c d : ℚ) :
 example : Gen.tmle_unit_bounds (F := ℚ) (-2 * 2 + 10) (-2 * 5 + 10) (-2 * 1 + 10) (1/2000) = 1 - 1/4 ∧
     Gen.tmle_unit_bounds (F := ℚ) 2 1 5 (1/2000) = 1/4 ∧ (1/2000 : ℚ) ≤ 1 - 1/2000 := by
   norm_num [Gen.tmle_unit_bounds]
+
+-- the GEE sandwich: a weighted two-arm data set (weights differ within an arm, so the variance is not a plain
+-- binomial one); recoded and re-expressed, with both arms of non-zero weight
+def exMsm : List (Ci.MRow ℚ) := [⟨true, 1, 2⟩, ⟨true, 0, 1⟩, ⟨false, 1, 1⟩, ⟨false, 0, 3⟩]
+example : Ci.msmRD exMsm = (5/12, 1753/10368) ∧ Ci.msmRD (exMsm.map Ci.flipM) = (-5/12, 1753/10368) ∧
+    Ci.msmRR exMsm = (8/3, 97/72) ∧ Ci.msmRR (exMsm.map Ci.flipM) = (3/8, 97/72) ∧
+    Ci.armW exMsm true ≠ 0 ∧ Ci.armW exMsm false ≠ 0 ∧
+    Ci.msmRD (exMsm.map (Ci.affM (-2) 7)) = (-5/6, 1753/2592) := by
+  norm_num [Ci.msmRD, Ci.msmRR, Ci.armMean, Ci.armVar, Ci.armW, Ci.arm, sumBy, exMsm, Ci.flipM, Ci.affM]
+example : exMsm.Perm exMsm.reverse ∧ (exMsm.reverse.map (·.a)) ≠ exMsm.map (·.a) := ⟨(List.reverse_perm _).symm, by decide⟩
+-- … and from the IPTW rows: unstabilized population weights at propensity 2/5 resp. 1/4 by stratum, one outcome missing
+example :
+    Ci.msmRows exRows (iptwOmega false Tgt.pop (fun _ => 1/2) (fun r => if r.s = 0 then 2/5 else 1/4) (fun _ => 1))
+      = [⟨true, 3, 5/2⟩, ⟨false, 1, 5/3⟩, ⟨true, 5, 8⟩, ⟨false, 2, 4/3⟩, ⟨false, 4, 4/3⟩, ⟨true, 1, 5/2⟩] := by
+  simp [Ci.msmRows, exRows, iptwOmega, Gen.iptw_weight, Tgt.str]
+  norm_num
 
 -- g-estimation: a data set whose exposure model (intercept only, π = 1/2) satisfies its score equation; ψ = 2
 def exSnm : List (SnmR.SRow ℚ) := [⟨true, 3, 1, 1/2, fun _ => 1⟩, ⟨false, 1, 1, 1/2, fun _ => 1⟩]
